@@ -277,9 +277,91 @@ def make_case(rng, n_events, big_ids=False):
             snap.append(w.stream_action())
     evs = []
     pc = rng.choice([0.25, 0.4, 0.5])
-    for _ in range(n_events):
-        evs.append(w.circ_action() if rng.random() < pc else w.stream_action())
+    builds = rng.random() < 0.5          # half of the cases: the application also asks Tor to build circuits
+    pend = 0
+    while len(evs) < n_events:
+        r = rng.random()
+        if builds and r < 0.07:
+            evs.append(['b', [rng.randrange(nrelay) for _ in range(rng.choice([0, 0, 1, 2, 3]))]])
+            pend += 1
+            w.tags.add('build')
+        elif builds and pend and r < 0.2:
+            evs.extend(answer_build(rng, w))
+            pend -= 1
+        else:
+            evs.append(w.circ_action() if rng.random() < pc else w.stream_action())
     return {'cons': cons, 'snap': snap, 'evs': evs, 'tags': sorted(w.tags)}
+
+
+def launched(rng, w, n):
+    if n in w.closed_c:
+        w.tags.add('circ-id-reused')
+    w.circs[n] = {'path': []}
+    return ['c', n, C_LAUNCHED, [], w.circ_kw(C_LAUNCHED, True)]
+
+
+def answer_build(rng, w):
+    """Tor answers the oldest outstanding EXTENDCIRCUIT: with an error, or with EXTENDED n where n is a circuit it
+    has just announced (CIRC n LAUNCHED delivered first), one announced a while ago that has no hop yet, or one
+    whose first CIRC event is still to come"""
+    r = rng.random()
+    if r < 0.12:
+        w.tags.add('build-error')
+        return [['xe']]
+    fresh = [c for c in w.cids if c not in w.circs]
+    nohop = [c for c in w.circs if not w.circs[c]['path']]
+    if r < 0.5 and fresh:
+        n = rng.choice(fresh)
+        w.tags.add('event-before-answer')
+        return [launched(rng, w, n), ['x', n]]
+    if r < 0.65 and nohop:
+        w.tags.add('event-before-answer')
+        return [['x', rng.choice(nohop)]]
+    if fresh:
+        n = rng.choice(fresh)
+        w.tags.add('answer-before-event')
+        out = [['x', n]]
+        if n in w.closed_c:
+            w.tags.add('circ-id-reused')
+        w.circs[n] = {'path': []}
+        if rng.random() < 0.6:
+            out.append(launched(rng, w, n))
+        return out
+    if nohop:
+        w.tags.add('event-before-answer')
+        return [['x', rng.choice(nohop)]]
+    w.tags.add('build-error')
+    return [['xe']]
+
+
+def with_builds(h):
+    """an enumerated history crossed with one build_circuit() and its answer EXTENDED 1 / error at every legal pair of
+    positions (the answer names circuit 1 while Tor does not have it or has reported no hop of it)"""
+    evs = h['evs']
+    ok = []
+    path = None
+    for i in range(len(evs) + 1):
+        ok.append(path is None or path == [])
+        if i < len(evs):
+            e = evs[i]
+            if e[0] == 'c' and e[1] == 1:
+                path = None if e[2] in (C_CLOSED, C_FAILED) else ([] if e[2] == C_LAUNCHED else [x[0] for x in e[3]])
+    out = []
+    for pb in range(len(evs) + 1):
+        for px in range(pb, len(evs) + 1):
+            for ans in (['x', 1], ['xe']):
+                if ans[0] == 'x' and not ok[px]:
+                    continue
+                l = []
+                for i in range(len(evs) + 1):
+                    if i == pb:
+                        l.append(['b', [2]])
+                    if i == px:
+                        l.append(ans)
+                    if i < len(evs):
+                        l.append(evs[i])
+                out.append({'cons': [[1, 1]], 'snap': [], 'evs': l, 'tags': ['exhaustive', 'build']})
+    return out
 
 
 class P(core.Prop):
@@ -294,6 +376,9 @@ class P(core.Prop):
     rule = ('histories = random walks on Tor\'s own view (legal by construction, re-checked by Spec.C07.legal in Coq): '
             '<= 5 circuit ids and <= 5 stream ids (also ids around the byte/16-bit boundaries), launch/extend/build/'
             'guard_wait/close/fail, new/remap/sentconnect/succeeded/detached/failed/closed, first sight in any status, '
+            'in half of the cases build_circuit() calls (0-3 relays) at random positions and Tor\'s answer to the oldest one '
+            '(250 EXTENDED n just after CIRC n LAUNCHED, for an announced circuit without hops, or before the first event '
+            'of n; or 551), '
             're-attachment after detach, circuits closing under attached streams, id reuse after close, paths over '
             'relays inside and outside a 0-6 relay consensus, random keyword sets and orders; preceded (75%) by a '
             'circuit-status + stream-status snapshot of 0-11 lines; delivered as GETINFO replies / 650 lines to a '
@@ -302,33 +387,63 @@ class P(core.Prop):
     trusted = ['harness/statelib.py: number <-> wire text tables, the CIRC/STREAM/GETINFO printers (control-spec '
                '4.1.1, 4.1.2), the attribute dump and its packing; coq/Check/C07_dec.v (unpacking)',
                'TorControlProtocol delivers each 650 line to the registered listener (C01/C02)',
-               'object identity = allocation order through TorState.circuit_factory / stream_factory wrappers']
+               'object identity = allocation order through TorState.circuit_factory / stream_factory wrappers',
+               'build_circuit() is called with objects that only have .id_hex, using_guards=False; the EXTENDCIRCUIT command is '
+               'noted at TorControlProtocol.queue_command; the recorder added with addBoth to the returned Deferred']
     assumptions = ['Tor changes a stream\'s address only through REMAP and never its port; paths only grow between LAUNCHED events',
                    'an attached stream changes circuit only through DETACHED; stream ids in NEW are fresh',
                    'no stream attacher is installed and the address map is empty (C09, C20)',
-                   'NEWRESOLVE/SENTRESOLVE streams and pre-0.2.2 short names in paths are outside the envelope']
+                   'NEWRESOLVE/SENTRESOLVE streams and pre-0.2.2 short names in paths are outside the envelope',
+                   'Tor answers EXTENDCIRCUIT 0 with 250 EXTENDED n only for a circuit n it has (no hop reported yet) or is about '
+                   'to announce; the answer is read as Tor\'s statement "n EXTENDED" (no keywords, no path)']
 
     def run_impl(self, case):
+        from txtorcon.circuit import Circuit
         w = L.World(case['cons'], case['snap'])
         trace = []
         r = w.bootstrap()
         trace.append(w.dump(r))
         fed = 0
+        nbuilds = [0]
+        extra = []
+
+        def waiter(k):
+            def cb(res):
+                if isinstance(res, Circuit):
+                    extra.extend([[1, L.World._n(w.coid(res))], [4, k]])
+                else:
+                    extra.append([2, k])
+                return None
+            return cb
         if r == 0:
             for e in case['evs']:
-                r = w.event(e)
+                del extra[:]
+                if e[0] in ('c', 's'):
+                    r = w.event(e)
+                elif e[0] == 'b':
+                    try:
+                        written = w.build(e[1], waiter(nbuilds[0]))
+                        nbuilds[0] += 1
+                        extra[0:0] = written
+                        r = 0
+                    except Exception as ex:
+                        r = L.exc_kind(ex)
+                else:
+                    r = w.answer_build(e[1] if e[0] == 'x' else None)
                 fed += 1
-                trace.append(w.dump(r))
+                o = w.dump(r)
+                o['extra'] = [list(x) for x in extra]
+                trace.append(o)
                 if r:
                     break
         return {'trace': trace, 'fed': fed}
 
     def to_coq(self, case, obs):
         evs = case['evs'][:obs['fed']]
-        return Rec(k_in=B(L.enc_input(case['cons'], case['snap'], evs)), k_obs=B(L.enc_trace(obs['trace'])))
+        return Rec(k_in=B(L.enc_input2(case['cons'], case['snap'], evs)), k_obs=B(L.enc_trace2(obs['trace'])))
 
     def nontrivial(self, case, obs):
-        evs = case['snap'] + case['evs']
+        evs = [e for e in case['snap'] + case['evs'] if e[0] in ('c', 's')]
         ended = any((e[0] == 'c' and e[2] in (C_FAILED, C_CLOSED)) or (e[0] == 's' and e[2] in (S_FAILED, S_CLOSED)) for e in evs)
         attached = any(s['circ'] for o in obs['trace'] for s in o['streams'])
         return len(evs) >= 5 and ended and attached
@@ -340,7 +455,8 @@ class P(core.Prop):
         n = len(case['evs'])
         size = 'n<10' if n < 10 else 'n<30' if n < 30 else 'n<80' if n < 80 else 'n>=80'
         interesting = [t for t in ('circuit-closed-under-stream', 'stream-ended-after-its-circuit', 'reattached-after-detach',
-                                   'circ-id-reused', 'stream-id-reused') if t in tags]
+                                   'circ-id-reused', 'stream-id-reused', 'event-before-answer', 'answer-before-event',
+                                   'build-error') if t in tags]
         return size + '/' + ('snap' if case['snap'] else 'nosnap') + '/' + ('+'.join(t.split('-')[0] + t.split('-')[-1] for t in interesting) or 'plain')
 
     def generate(self, rng, tier, n):
@@ -359,7 +475,11 @@ class P(core.Prop):
         out = []
         for cs, ss, depth in (((1, 2), (1, 2), 4), ((1, 2), (1,), 5), ((1,), (1, 2), 5)):
             out.extend(enumerate_histories(cs, ss, depth))
-        return out, ('every legal history of exactly 4 events over 2 circuit ids x 2 stream ids, and of exactly 5 events '
+        for h in enumerate_histories((1,), (1,), 3):
+            out.extend(with_builds(h))
+        return out, ('every legal history of exactly 3 events over 1 circuit id x 1 stream id crossed with one build_circuit() '
+                     'and its answer (EXTENDED 1 where legal, or an error) at every pair of positions; '
+                     'every legal history of exactly 4 events over 2 circuit ids x 2 stream ids, and of exactly 5 events '
                      'over 2 x 1 and 1 x 2 ids (alphabet: LAUNCHED / first-sight BUILT / EXTENDED+1 hop / BUILT / CLOSED / '
                      'FAILED; NEW / first-sight SENTCONNECT / SENTCONNECT to every live circuit / REMAP / SUCCEEDED / '
                      'DETACHED / CLOSED / FAILED), observed after every event')
@@ -374,8 +494,10 @@ class P(core.Prop):
             yield dict(case, snap=[])
         if case['cons']:
             yield dict(case, cons=[])
-        if any(e[-1] for e in evs + snap):
-            yield dict(case, evs=[e[:-1] + [[]] for e in evs], snap=[e[:-1] + [[]] for e in snap])
+        def bare(e):
+            return e[:-1] + [[]] if e[0] in ('c', 's') else e
+        if any(e[-1] for e in evs + snap if e[0] in ('c', 's')):
+            yield dict(case, evs=[bare(e) for e in evs], snap=[bare(e) for e in snap])
         for name in ('evs', 'snap'):
             l = case[name]
             size = len(l) // 2
@@ -386,7 +508,7 @@ class P(core.Prop):
         for name in ('snap', 'evs'):
             l = case[name]
             for i, e in enumerate(l):
-                if e[-1]:
+                if e[0] in ('c', 's') and e[-1]:
                     yield dict(case, **{name: l[:i] + [e[:-1] + [[]]] + l[i + 1:]})
 
     finding_preds = {}
